@@ -411,6 +411,24 @@ CONVERT = ("CvtToFuzzy", "CvtFromFuzzy", "CvtToBinary", "CvtToFuzzyCat", "CvtToF
            "NormalizeCurve", "NormalizeCurveZScore", "NormalizeMeanToMid")
 
 
+def partial_overflow(cmd, cols, params, bound):
+    """True if, combining the inputs in their listed order, some operand or partial sum / product exceeds `bound` in
+    magnitude (integer overflow of an intermediate result is out of scope for every check)."""
+    if cmd not in ("Multiply", "Sum", "WeightedSum", "WeightedMean", "Mean", "AMinusB"):
+        return False
+    wts = params.get("Weights") or [1] * len(cols)
+    for tup in zip(*cols):
+        if any(v is None for v in tup):
+            continue
+        run = None
+        for v, wt in zip(tup, wts):
+            term = v * F(wt) if cmd.startswith("Weighted") else v
+            run = term if run is None else (run * term if cmd == "Multiply" else run - term if cmd == "AMinusB" else run + term)
+            if abs(run) > bound or abs(term) > bound:
+                return True
+    return False
+
+
 def compare(result, ref_cells, scale=1.0, rel=1e-9, exact=False):
     """result: numpy array from the implementation. Returns None if it agrees with the reference,
     else (kind, index, got, want) for the first disagreement. A plain ndarray has nothing missing."""
